@@ -26,13 +26,27 @@ impl WaitSlot {
     }
 
     pub(super) fn register_current_thread(&self) {
+        vpoint!(SCHED, "N_Register");
         self.thread
             .set(thread::current())
             .expect("scheduler wait thread registered more than once");
+        #[cfg(grevm_verif)]
+        if let Some(hooks) = crate::verif::controlled() {
+            hooks.slot_register(self as *const Self as usize);
+        }
+        vemit!(SCHED, "N_Register", "slot" => self as *const Self as usize);
     }
 
     pub(super) fn notify(&self) {
+        vpoint!(SCHED, "N_Notify");
+        vemit!(SCHED, "N_Notify", "slot" => self as *const Self as usize,
+            "registered" => self.thread.get().is_some());
         if let Some(thread) = self.thread.get() {
+            #[cfg(grevm_verif)]
+            if let Some(hooks) = crate::verif::controlled() {
+                hooks.unpark(self as *const Self as usize);
+                return;
+            }
             thread.unpark();
         }
     }
@@ -47,8 +61,17 @@ impl WaitSlot {
         }
 
         // Most scheduler stalls close within one worker timeslice.
+        vpoint!(WAIT, "N_Yield");
         thread::yield_now();
         if blocked() {
+            #[cfg(grevm_verif)]
+            if let Some(hooks) = crate::verif::controlled() {
+                // Token semantics of `park`, but the stall timer never fires: a lost wake-up is a
+                // detected deadlock instead of an eight second pause.
+                hooks.park(self as *const Self as usize);
+                vemit!(SCHED, "N_Park", "slot" => self as *const Self as usize);
+                return;
+            }
             thread::park_timeout(timeout);
         }
     }
